@@ -1661,3 +1661,80 @@ def ac_key(e, memo=None):
                 key = (t.decl().name(), tuple(memo[c.get_id()] for c in ch))
         memo[i] = _AC_INTERN.setdefault(key, len(_AC_INTERN))
     return memo[e.get_id()]
+
+
+# ----------------------------------------------------------------------------------------------
+# model conformance self-test: every primitive model against the real jax.numpy on concrete data
+# ----------------------------------------------------------------------------------------------
+def selftest(seed=0):
+    """Differential test of the primitive models (bounded; reported under trusted_base, never as a proof).
+    Each model is run on Sym constants and evaluated back to floats, and compared with the installed JAX primitive."""
+    import jax
+    jax.config.update("jax_enable_x64", True)
+    rng = np.random.default_rng(seed)
+    bad, n = [], 0
+
+    def val(x):
+        if isinstance(x, Sym):
+            return float(zeval(x.e, {}))
+        if isinstance(x, np.ndarray) and x.dtype == object:
+            out = np.empty(x.shape)
+            for ix in np.ndindex(x.shape):
+                out[ix] = val(x[ix])
+            return out
+        if isinstance(x, (tuple, list)):
+            return [val(v) for v in x]
+        if isinstance(x, dict):
+            return {k: val(v) for k, v in x.items()}
+        return np.asarray(x, dtype=float)
+
+    def sym(a):
+        return SymArray(np.asarray(a, dtype=float))
+
+    def check(name, got, want):
+        nonlocal n
+        n += 1
+        g, w = np.asarray(val(got), dtype=float), np.asarray(want, dtype=float)
+        if g.shape != w.shape or not np.allclose(g, w, rtol=1e-9, atol=1e-12, equal_nan=True):
+            bad.append(f"{name}: model {g.tolist()} vs jax {w.tolist()}")
+    a = rng.uniform(-2, 2, 5)
+    b = rng.uniform(0.5, 3, 5)
+    m = rng.uniform(-2, 2, (2, 3))
+    J = _real_jnp
+    for nm, f, rf, x in (("exp", exp, J.exp, a), ("log", log, J.log, b), ("log1p", log1p, J.log1p, b), ("tanh", tanh, J.tanh, a), ("sqrt", sqrt, J.sqrt, b),
+                         ("abs", abs_, J.abs, a), ("expm1", expm1, J.expm1, a), ("nn.sigmoid", nn_sigmoid, _real_jax.nn.sigmoid, a), ("nn.softplus", nn_softplus, _real_jax.nn.softplus, a),
+                         ("cumsum", cumsum, J.cumsum, a), ("flip", flip, J.flip, a)):
+        check(nm, f(sym(x)), rf(x))
+    check("clip", clip(sym(a), None, 0.5), J.clip(a, None, 0.5))
+    check("clip2", clip(sym(a), -0.5, 0.5), J.clip(a, -0.5, 0.5))
+    check("minimum", minimum(sym(a), sym(b)), J.minimum(a, b))
+    check("maximum", maximum(sym(a), 0.3), J.maximum(a, 0.3))
+    check("where", where(sym(a) > 0, sym(a), sym(b)), J.where(a > 0, a, b))
+    check("sum", sum_(sym(m), axis=0), J.sum(m, axis=0))
+    check("sum_all", sum_(sym(m)), J.sum(m))
+    check("mean", mean(sym(a)), J.mean(a))
+    check("concatenate", concatenate([sym(a), sym(b)]), J.concatenate([a, b]))
+    check("stack", stack([sym(a), sym(b)]), J.stack([a, b]))
+    check("reshape", reshape(sym(m), (3, 2)), J.reshape(m, (3, 2)))
+    check("expand_dims", expand_dims(sym(a), 0), J.expand_dims(a, 0))
+    check("zeros_like", zeros_like(sym(a)), J.zeros_like(a))
+    check("ones", ones(4), J.ones(4))
+    idx = np.asarray([0, 2, 2, 4])
+    check("at.add (duplicates sum)", sym(a).at[idx].add(sym(b[:4])), J.asarray(a).at[idx].add(b[:4]))
+    check("at.set", sym(a).at[np.asarray([1, 3])].set(sym(b[:2])), J.asarray(a).at[np.asarray([1, 3])].set(b[:2]))
+    check("at.set negative index wraps", sym(a).at[np.asarray([-1])].set(7.0), J.asarray(a).at[np.asarray([-1])].set(7.0))
+    check("gather", sym(a)[np.asarray([3, 0, 0])], J.asarray(a)[np.asarray([3, 0, 0])])
+    check("slice", sym(m)[:, 1:], m[:, 1:])
+    check("arith", (sym(a) * 2.0 - sym(b)) / sym(b) + sym(a) ** 2, (a * 2.0 - b) / b + a ** 2)
+    check("vmap", vmap(lambda x, y: x * y + 1.0, in_axes=(0, 0))(sym(a), sym(b)), _real_jax.vmap(lambda x, y: x * y + 1.0, in_axes=(0, 0))(a, b))
+    check("vmap in_axes None", vmap(lambda x, y: x * y, in_axes=(None, 0))(Sym(2.5), sym(b)), _real_jax.vmap(lambda x, y: x * y, in_axes=(None, 0))(2.5, b))
+    check("fori_loop", fori_loop(0, 4, lambda i, v: v * 2.0 + i, Sym(1.0)), _real_jax.lax.fori_loop(0, 4, lambda i, v: v * 2.0 + i, 1.0))
+    dn = _real_jax.lax.ScatterDimensionNumbers(update_window_dims=(), inserted_window_dims=(0,), scatter_dims_to_operand_dims=(0,))
+    check("scatter_add", scatter_add(sym(np.zeros(5)), idx[:, None], sym(b[:4]), ScatterDimensionNumbers(update_window_dims=(), inserted_window_dims=(0,), scatter_dims_to_operand_dims=(0,))),
+          _real_jax.lax.scatter_add(J.zeros(5), idx[:, None], J.asarray(b[:4]), dn))
+    c, ys = lax_scan(lambda carry, x: (carry + x, carry * x), Sym(0.5), sym(a))
+    rc, rys = _real_jax.lax.scan(lambda carry, x: (carry + x, carry * x), 0.5, J.asarray(a))
+    check("lax.scan carry", c, rc)
+    check("lax.scan ys", ys, rys)
+    check("tree_map", tree_map(lambda x, y: x + y, {"k": sym(a)}, {"k": sym(b)})["k"], a + b)
+    return n, bad
